@@ -409,6 +409,62 @@ def normalise(c):
     return c
 
 
+def _is_one(x) -> bool:
+    return x in (("tlit", 1), ("ilit", 1))
+
+
+def strip_shifts(c):
+    """For the TREE obligation: remove the index shifts of the templates so that what remains is the filter's own
+    arithmetic.  (U + 1) - 1 -> U when one of the two ones is the template's (POSITION/INSTR = indexof + 1,
+    SUBSTR(x, p) = substring(x, p - 1)); a negated literal is a literal.  Applied to both sides."""
+    k = c[0]
+    if k == "app":
+        return ("app", c[1], [strip_shifts(a) for a in c[2]])
+    if k == "neg":
+        x = strip_shifts(c[1])
+        if x[0] == "ilit":
+            return ("ilit", -x[1])
+        return ("neg", x)
+    if k == "not":
+        return ("not", strip_shifts(c[1]))
+    if k in ("and", "or"):
+        return (k, strip_shifts(c[1]), strip_shifts(c[2]))
+    if k == "cmp":
+        return (k, c[1], strip_shifts(c[2]), strip_shifts(c[3]))
+    if k == "isnull":
+        return (k, c[1], strip_shifts(c[2]))
+    if k == "in":
+        return (k, c[1], strip_shifts(c[2]), [strip_shifts(i) for i in c[3]])
+    if k == "arith":
+        l, r = strip_shifts(c[2]), strip_shifts(c[3])
+        if c[1] == "-" and _is_one(r) and l[0] == "arith" and l[1] == "+" and ("tlit", 1) in (r, l[2], l[3]):
+            if _is_one(l[3]):
+                return l[2]
+            if _is_one(l[2]):
+                return l[3]
+        return ("arith", c[1], l, r)
+    return c
+
+
+def arith_ops(c) -> int:
+    """Number of arithmetic operator nodes (a regrouping needs at least two)."""
+    k = c[0]
+    n = 1 if k in ("arith", "neg") else 0
+    if k == "app":
+        return n + sum(arith_ops(a) for a in c[2])
+    if k in ("neg", "not"):
+        return n + arith_ops(c[1])
+    if k in ("and", "or"):
+        return n + arith_ops(c[1]) + arith_ops(c[2])
+    if k in ("arith", "cmp"):
+        return n + arith_ops(c[2]) + arith_ops(c[3])
+    if k == "isnull":
+        return n + arith_ops(c[2])
+    if k == "in":
+        return n + arith_ops(c[2]) + sum(arith_ops(i) for i in c[3])
+    return n
+
+
 def core_leaves(c, out: Optional[List[Tuple[str, Any]]] = None) -> List[Tuple[str, Any]]:
     """Field and literal leaves of a core tree (template-introduced literals excluded)."""
     if out is None:
@@ -480,7 +536,10 @@ class UStr:
 class UFContext:
     """One z3 vocabulary shared by the two sides of one obligation."""
 
-    def __init__(self, field_types: Dict[str, str], sentinels: List[int]):
+    def __init__(self, field_types: Dict[str, str], sentinels: List[int], uf_arith: bool = False):
+        # uf_arith: + - * / % and unary minus are uninterpreted binary symbols (neither associative nor commutative):
+        # validity then means "the same operators with the same operand order and nesting", not just the same value
+        self.uf_arith = uf_arith
         self.S = z3.DeclareSort("Str")
         self.field_types = field_types
         self.fields: Dict[str, Any] = {}
@@ -491,6 +550,14 @@ class UFContext:
 
     def z3sort(self, s: str):
         return {"num": z3.BitVecSort(W), "str": self.S, "bool": z3.BoolSort()}[s]
+
+    def arith(self, op: str):
+        key = "arith" + op
+        if key not in self.funcs:
+            n = z3.BitVecSort(W)
+            self.funcs[key] = z3.Function("F_op_" + {"+": "add", "-": "sub", "*": "mul", "/": "div", "%": "mod", "neg": "neg"}[op],
+                                          *([n, n] if op != "neg" else [n]), n)
+        return self.funcs[key]
 
     def func(self, name: str):
         if name not in self.funcs:
@@ -587,6 +654,8 @@ def core_to_z3(c, ctx: UFContext):
         return NullU()
     if k == "neg":
         x = _num(core_to_z3(c[1], ctx), ctx)
+        if ctx.uf_arith:
+            return IntV(x.null, ctx.arith("neg")(x.val))
         return IntV(x.null, -x.val)
     if k == "not":
         return V.not3(_bool(core_to_z3(c[1], ctx), ctx))
@@ -597,6 +666,8 @@ def core_to_z3(c, ctx: UFContext):
     if k == "arith":
         l, r = _num(core_to_z3(c[2], ctx), ctx), _num(core_to_z3(c[3], ctx), ctx)
         a, b = l.val, r.val
+        if ctx.uf_arith:
+            return IntV(z3.Or(l.null, r.null), ctx.arith(c[1])(a, b))
         val = {"+": a + b, "-": a - b, "*": a * b, "/": a / b, "%": z3.SRem(a, b)}[c[1]]
         return IntV(z3.Or(l.null, r.null), val)
     if k == "cmp":
@@ -731,6 +802,8 @@ class ModelEval:
             return "null", None
         if k == "neg":
             s, v = self.num(c[1])
+            if v is not None and self.ctx.uf_arith:
+                return "num", self.m.eval(self.ctx.arith("neg")(z3.BitVecVal(v, W)), True).as_signed_long()
             return "num", None if v is None else self._wrap(-v)
         if k == "not":
             v = self.boolean(c[1])
@@ -748,6 +821,8 @@ class ModelEval:
             if a is None or b is None:
                 return "num", None
             op = c[1]
+            if self.ctx.uf_arith:
+                return "num", self.m.eval(self.ctx.arith(op)(z3.BitVecVal(a, W), z3.BitVecVal(b, W)), True).as_signed_long()
             if op == "+":
                 r = a + b
             elif op == "-":
